@@ -68,6 +68,9 @@ def observers():
         ("rcB", S(("x", ["RawCopy", BYTE]), ("t", ["Tell"]))),
         ("pEnd", S(("p", ["Pointer", -1, BYTE]), ("t", ["Tell"]))),
         ("pAbs", S(("p", ["Pointer", 4, BYTE]), ("t", ["Tell"]), ("g", ["GreedyBytes"]))),
+        # the optional stream= parameter: a target in the OUTERMOST stream, read from inside the region (region bytes follow it)
+        ("pRoot", S(("b", BYTE), ("p", ["Pointer", 1, BYTE, "root"]), ("t", ["Tell"]), ("g", ["GreedyBytes"]))),
+        ("pRootEnd", S(("p", ["Pointer", -1, BYTE, "root"]), ("t", ["Tell"]), ("b", BYTE))),
         # relative and end-relative repositioning inside the region
         ("skF", S(("b", BYTE), ("s", ["Seek", 1, 1]), ("t", ["Tell"]), ("g", ["GreedyBytes"]))),
         ("skB", S(("b", ["Bytes", 2]), ("s", ["Seek", -1, 1]), ("t", ["Tell"]), ("g", ["GreedyBytes"]))),
